@@ -283,7 +283,8 @@ func scalarPaths(sc sscope, d Data, name string) (paths []string, samples []vals
 func readsFor(sc sscope, d Data, name string, salt int, choose func(n int) int, rich bool) []Read {
 	paths, samples, bound, ok := scalarPaths(sc, d, name)
 	if !ok {
-		return nil
+		// a sequence: a context-aware function iterates it through ctx.Stack().ForEach
+		return []Read{{Pos: "cnt", Cond: Cond{Path: name}}}
 	}
 	pi := 0
 	if choose != nil && len(paths) > 1 {
@@ -291,6 +292,10 @@ func readsFor(sc sscope, d Data, name string, salt int, choose func(n int) int, 
 	}
 	path, s := paths[pi], samples[pi]
 	out := []Read{{Pos: "text", Cond: Cond{Path: path}}}
+	// the same path as seen by a registered context-aware function (ctx.Stack().Resolve)
+	if choose == nil || choose(2) == 0 {
+		out = append(out, Read{Pos: "ctx", Cond: Cond{Path: path}})
+	}
 	// a bound attribute named like the variable itself (<option :value="value">): plain path
 	// binding, no expression; attribute names are lower case in HTML
 	selfAttr := func() {
@@ -435,7 +440,7 @@ func only(n Node, pos ...string) Node {
 
 // textOf is element-less output of the names: ID({{ a }},{{ b == lit ? 'Y' : 'N' }},…).
 func textOf(id string, sc sscope, d Data, names []string, salt int, choose func(int) int) Node {
-	n := only(probeOf(id, sc, d, names, salt, choose), "text", "tern", "type", "fn")
+	n := only(probeOf(id, sc, d, names, salt, choose), "text", "tern", "type", "fn", "ctx", "cnt")
 	return Node{Text: n.Probe}
 }
 
@@ -558,11 +563,14 @@ func rootSetups() []rootSetup {
 // Stack.EnvMap()), which lists a root struct's own fields only; what that means for promoted
 // root fields is not this property's subject, so embedding roots use the two direct entry points.
 func apiFor(rootKind, api string) string {
-	if isEmbRoot(rootKind) && api == "load" {
+	if isEmbRoot(rootKind) && (api == "load" || api == "file" || api == "view" || api == "assign") {
 		return "fragment"
 	}
 	return api
 }
+
+// allAPIs: every public entry point (see openDoor).
+var allAPIs = []string{"string", "fragment", "load", "byte", "vrender", "file", "reader", "nodes", "view", "assign"}
 
 // elseSeps: what may stand between a loop and its v-else (index 0 = directly adjacent).
 var elseSeps = []string{"", " ", "\n  ", "<!-- c -->", "\n<!-- c -->\n"}
@@ -606,7 +614,7 @@ func core1(full bool, yield func(Case) bool) {
 		vals.List("[]any", vals.Int(1), vals.Nil(), vals.Int(2), vals.Nil()),
 		vals.List("[]any", mapOf("a", 1), vals.Nil(), mapOf("c", 3)),
 		vals.List("[]any", vals.Nil()))
-	apis := []string{"string", "fragment", "load"}
+	apis := allAPIs
 	i, rot, rotIdx := 0, 0, 0
 	for _, rs := range rootSetups() {
 		for ci, coll := range colls {
@@ -747,7 +755,7 @@ func core1(full bool, yield func(Case) bool) {
 						if cb.els >= 0 {
 							l.Else = &Else{ID: "E1", Sep: elseSeps[cb.els], Body: []Node{only(probeOf("p2", outer, d, []string{vn, idx}, i, nil), "text", "tern")}}
 						}
-						c := Case{API: apiFor(rs.kind, apis[i%3]), Pretty: i%4 == 1, Data: d, Prog: []Node{{Loop: l}, only(probeOf("p3", outer, d, names, i, nil), "text", "tern", "vif")}}
+						c := Case{API: apiFor(rs.kind, apis[i%len(apis)]), Pretty: i%4 == 1, Data: d, Prog: []Node{{Loop: l}, only(probeOf("p3", outer, d, names, i, nil), "text", "tern", "vif", "ctx", "cnt")}}
 						if !yield(c) {
 							return
 						}
@@ -775,7 +783,7 @@ func core2(yield func(Case) bool) {
 	x0n.M["children"] = vals.List("[]any", kid("c"), vals.Nil(), kid("d"))
 	xsNil := vals.List("[]any", x0n, vals.Nil(), x1, x2)
 	ysNil := vals.List("[]any", vals.Str("p"), vals.Nil(), vals.Str("q"))
-	apis := []string{"string", "fragment", "load"}
+	apis := allAPIs
 	i := 0
 	for _, rs := range rootSetups() {
 		if rs.only != "" || rs.thin > 0 {
@@ -843,7 +851,7 @@ func core2(yield func(Case) bool) {
 										outer.Body = append([]Node{call}, outer.Body...)
 									}
 								}
-								c := Case{API: apis[i%3], Pretty: i%2 == 0, Data: d, Prog: []Node{{Loop: outer}, only(probeOf("p5", root, d, pool, i, nil), "text", "tern")}}
+								c := Case{API: apis[i%len(apis)], Pretty: i%2 == 0, Data: d, Prog: []Node{{Loop: outer}, only(probeOf("p5", root, d, pool, i, nil), "text", "tern")}}
 								if call.Inc != nil {
 									c.Prog = append([]Node{call}, c.Prog...)
 								}
@@ -915,7 +923,7 @@ func core3(yield func(Case) bool) {
 						}
 						ol := &Loop{ID: "L1", Tag: "div", Var: "p", Coll: rt.name, Bind: "p.ID",
 							Body: []Node{probeRich("p1", o, d, names, i, nil, "p"), {Loop: il}, only(probeOf("p4", o, d, names, i+1, nil), "text", "tern")}}
-						c := Case{API: apiFor(rt.root, []string{"string", "fragment", "load"}[i%3]), Pretty: i%2 == 0, Data: d,
+						c := Case{API: apiFor(rt.root, allAPIs[i%len(allAPIs)]), Pretty: i%2 == 0, Data: d,
 							Prog: []Node{{Loop: ol}, only(probeOf("p5", root, d, names, i, nil), "text", "tern")}}
 						if !yield(c) {
 							return
@@ -954,11 +962,66 @@ func core4(yield func(Case) bool) {
 								Body: []Node{{Piece: &Piece{Tag: "u", Path: "c", Ws: preWs[(i+2)%len(preWs)]}}}}
 							l.Body = append(l.Body, Node{Loop: in}, Node{Piece: &Piece{Ws: "\n"}})
 						}
-						c := Case{API: []string{"string", "fragment", "load"}[i%3], Pretty: i%2 == 0, Data: d,
+						c := Case{API: allAPIs[i%len(allAPIs)], Pretty: i%2 == 0, Data: d,
 							Prog: []Node{{Pre: &PreBlock{ID: "pre1", Body: []Node{{Loop: l}}}}}}
 						if !yield(c) {
 							return
 						}
+					}
+				}
+			}
+		}
+	}
+}
+
+// wrapOf builds a container of the given kind around one loop over coll (var v, index i).
+// noscript / template hold an ordinary <div> loop with a probe; table a <tr> loop (content in a
+// cell); select an <option> loop with a text body.
+func wrapOf(kind, id string, sc sscope, d Data, coll string, elem vals.V, idx string, els bool, salt int, names []string) Node {
+	inner := sc.bind("v", elem, false)
+	if idx != "" {
+		inner = inner.bind(idx, vals.Int(0), false)
+	}
+	all := uniq(append([]string{"v", idx}, names...))
+	l := &Loop{ID: "L" + id, Tag: "div", Idx: idx, Var: "v", Coll: coll}
+	switch kind {
+	case "table":
+		l.Tag = "tr"
+	case "select":
+		l.Tag = "option"
+	}
+	if kind == "select" {
+		l.Body = []Node{textOf("t"+id, inner, d, all, salt, nil)}
+	} else {
+		l.Body = []Node{probeRich("p"+id, inner, d, all, salt, nil, "v")}
+	}
+	if els {
+		l.Else = &Else{ID: "E" + id, Sep: elseSeps[salt%len(elseSeps)]}
+		if kind != "select" {
+			l.Else.Body = []Node{only(probeOf("q"+id, sc, d, all, salt, nil), "text", "ctx", "cnt")}
+		}
+	}
+	return Node{Wrap: &Wrap{ID: "w" + id, Kind: kind, Body: []Node{{Loop: l}}}}
+}
+
+var wrapKinds = []string{"noscript", "template", "table", "select"}
+
+// core5: a loop inside every parser-sensitive container x every entry point x empty / two
+// items x form x v-else.
+func core5(yield func(Case) bool) {
+	i := 0
+	for _, kind := range wrapKinds {
+		for _, api := range allAPIs {
+			for _, n := range []int{0, 2} {
+				for _, els := range []bool{false, true} {
+					i++
+					d := Data{Root: "map", Slots: []Slot{{"xs", fixedColl("[]string", n)}, {"v", vals.Str("OUT")}}}
+					idx := []string{"", "i"}[i%2]
+					c := Case{API: api, Pretty: i%3 == 0, Data: d, Prog: []Node{
+						wrapOf(kind, "1", sscope{}, d, "xs", vals.Str("a"), idx, els, i, []string{"xs"}),
+						only(probeOf("p9", sscope{}, d, []string{"v", idx, "xs"}, i, nil), "text", "ctx", "cnt", "tern")}}
+					if !yield(c) {
+						return
 					}
 				}
 			}
@@ -1430,7 +1493,7 @@ func (g *gen) loop(sc sscope, depth int, outerVars []string) []Node {
 func genCase(t *rapid.T) Case {
 	g := &gen{t: t}
 	g.data()
-	c := Case{API: apiFor(g.d.Root, g.pick([]string{"string", "fragment", "load"}, "api")), Pretty: rapid.Bool().Draw(t, "pretty"), Data: g.d}
+	c := Case{API: apiFor(g.d.Root, g.pick(allAPIs, "api")), Pretty: rapid.Bool().Draw(t, "pretty"), Data: g.d}
 	// a third of the cases call a component with many props before the loops
 	if g.int(0, 2, "topinc") == 0 {
 		for k := g.int(1, 2, "ntopinc"); k > 0; k-- {
@@ -1439,6 +1502,23 @@ func genCase(t *rapid.T) Case {
 	}
 	for k := g.int(1, 2, "ntop"); k > 0; k-- {
 		c.Prog = append(c.Prog, g.loop(sscope{}, 1, nil)...)
+	}
+	if g.int(0, 3, "topwrap") == 0 {
+		// a loop inside a parser-sensitive container
+		kind := g.pick(wrapKinds, "wrapkind")
+		var lists []string
+		for _, n := range g.roots {
+			if v, ok := (sscope{}).lookup(g.d, n); ok && isSeq(v.K) && !hasNil(v) {
+				if _, _, _, fine := scalarPaths(sscope{}.bind("v", sampleElem(v), false), g.d, "v"); fine {
+					lists = append(lists, n)
+				}
+			}
+		}
+		if len(lists) > 0 {
+			coll := g.pick(lists, "wraplist")
+			cv, _ := (sscope{}).lookup(g.d, coll)
+			c.Prog = append(c.Prog, wrapOf(kind, g.id("x"), sscope{}, g.d, coll, sampleElem(cv), []string{"", "i", "k"}[g.int(0, 2, "wrapidx")], rapid.Bool().Draw(t, "wrapelse"), g.int(0, 19, "salt"), g.roots))
+		}
 	}
 	if g.int(0, 2, "toppre") == 0 {
 		if pn := g.pre(sscope{}); pn != nil {
@@ -1471,6 +1551,9 @@ func classify(c Case) (bool, []string) {
 			if n.Pre != nil {
 				cls["loop-inside-pre"] = true
 				walk(n.Pre.Body, depth, outer)
+			}
+			if n.Wrap != nil {
+				walk(n.Wrap.Body, depth, outer)
 			}
 			l := n.Loop
 			if l == nil {
